@@ -252,6 +252,8 @@ pub struct Stats {
     pub distinct: std::collections::HashSet<u64>,
     pub violations: Vec<Violation>,
     pub nviol: usize,
+    pub primed: usize,
+    pub prime_failed: usize,
     pub samples: Vec<Value>,
     /// advisory: how often the PasetoError variant predicted by the step-by-step model was the one observed
     pub variant_total: usize,
@@ -286,6 +288,8 @@ impl Stats {
         }
         self.distinct.extend(o.distinct);
         self.nviol += o.nviol;
+        self.primed += o.primed;
+        self.prime_failed += o.prime_failed;
         self.variant_total += o.variant_total;
         self.variant_agree += o.variant_agree;
         for (k, v) in o.variant_disagree {
@@ -526,7 +530,7 @@ pub fn replay_case(
     let msg = &inst.msgs[&case.mint.m];
     for (ti, t) in toks.iter().enumerate() {
         st.tokens += 1;
-        for p in &case.pres {
+        for (pi, p) in case.pres.iter().enumerate() {
             let props = props_of(case, p);
             if !want(&props) {
                 continue;
@@ -540,6 +544,24 @@ pub fn replay_case(
                 None => continue,
             };
             for layer in &cfg.layers {
+                // for the first few altered tokens of a case: the authentic token is accepted under its own
+                // parameters immediately before (same thread, same entry point) - an acceptance must not
+                // leave anything behind that makes the altered token pass
+                // (also for the unaltered token about to be presented under another key / footer / assertion)
+                if p.exp != "ok" && ti < 2 && (pi < 16 || pi % 8 == 0 || p.k == case.mint.k) && ppr.name() == pr.name() {
+                    let prime = present(
+                        pr,
+                        *layer,
+                        &tok,
+                        &inst.keys[&case.mint.k],
+                        inst.footer(&case.mint.f),
+                        if pr.has_assertion() { inst.assertion(&case.mint.a) } else { None },
+                    );
+                    st.primed += 1;
+                    if !prime.0.is_ok() && *layer == Layer::Core {
+                        st.prime_failed += 1;
+                    }
+                }
                 let (out, calls) = present(
                     ppr,
                     *layer,
